@@ -175,7 +175,44 @@ theorem cfg_handler : handlerNeedsName = false ∧ sleepArgIsSleepTime = true :=
 theorem retryFor_spec (named : Bool) (script : Nat → Outc) (attempts : Int) : retryFor named script attempts = spec script attempts := by
   simp [retryFor, cfg_handler, retry_spec]
 
+/-- the handler does not look at the exception object, `retry_func` works on locals only, and `@retry` is a plain forward that
+    creates nothing per decorator or per decorated function -/
+theorem cfg_no_hidden_state :
+    handlerReadsException = false ∧ retryFuncOnlyLocals = true ∧ decoratorWrapperForwards = true ∧ decoratorKeepsNoState = true := by
+  decide
+
+theorem loopP_eq_loop (printable : Nat → Bool) (script : Nat → Outc) (attempts : Int) :
+    ∀ (fuel : Nat) (attempt : Int) (i : Nat), loopP printable script attempts fuel attempt i = loop script attempts fuel attempt i := by
+  intro fuel
+  induction fuel with
+  | zero => intro attempt i; simp [loopP, loop]
+  | succ fuel ih =>
+    intro attempt i
+    simp only [loopP, loop, cfg_no_hidden_state.1, Bool.false_and, Bool.false_eq_true, ↓reduceIte, ih]
+
+/-- **C15 for every kind of exception object**: also when the listed exceptions that are raised cannot be formatted (their `__str__`
+    / `__repr__` raises) every attempt is made and the caller sees the last invocation's outcome - the handler never looks at them -/
+theorem retryForP_spec (named : Bool) (printable : Nat → Bool) (script : Nat → Outc) (attempts : Int) :
+    retryForP named printable script attempts = spec script attempts := by
+  have := retryFor_spec named script attempts
+  simp only [retryFor, retry] at this
+  simp only [retryForP, loopP_eq_loop]
+  exact this
+
+/-- **C15 through the decorator**: a call of a `@retry(...)` function is the contract, whatever ran before or runs meanwhile (the
+    model of a call has no other input than its own script: `cfg_no_hidden_state` is what licenses that for the code) -/
+theorem retryDecorated_spec (named : Bool) (printable : Nat → Bool) (script : Nat → Outc) (attempts : Int) :
+    retryDecorated named printable script attempts = spec script attempts := retryForP_spec named printable script attempts
+
+/-- overlapping calls (a call made while another call of the same decorated function is in progress - recursion, re-entrancy): each
+    of them meets the contract for its own outcomes -/
+theorem overlapping_calls_independent (named : Bool) (p₁ p₂ : Nat → Bool) (s₁ s₂ : Nat → Outc) (attempts : Int) :
+    retryDecorated named p₁ s₁ attempts = spec s₁ attempts ∧ retryDecorated named p₂ s₂ attempts = spec s₂ attempts :=
+  ⟨retryDecorated_spec named p₁ s₁ attempts, retryDecorated_spec named p₂ s₂ attempts⟩
+
 -- non-vacuity: concrete runs
+example : retryForP true (fun _ => false) (fun i => if i < 2 then .listed i else .ret 42) 5
+    = ⟨[.call 0, .sleep, .call 1, .sleep, .call 2], .ret 42⟩ := by decide
 example : retry (fun i => if i < 2 then .listed i else .ret 42) 5
     = ⟨[.call 0, .sleep, .call 1, .sleep, .call 2], .ret 42⟩ := by decide
 example : retry (fun i => .listed i) 3 = ⟨[.call 0, .sleep, .call 1, .sleep, .call 2], .exc 2⟩ := by decide
